@@ -1,10 +1,10 @@
 #include "contract.h"
-long long e_l[16]; int g_nawake, g_aw_kind[4], g_aw_tag[4], g_aw_on[4]; int g_active_tag[2]; size_t g_nactive;
+long long e_l[16]; int g_nawake, g_aw_kind[6], g_aw_tag[6], g_aw_on[6]; int g_active_tag[2]; size_t g_nactive; int g_state[6];
 int g_throw, g_debug, g_vec_alloc; unsigned g_errors, g_error_bits; size_t g_alloc_bytes;
 long long g_step_rel, g_step_abs; int g_sim_continuing, g_sim_running;
 int nondet_int(void); long long nondet_ll(void);
 double k_floor(double x) { return x; } double k_sqrt(double x) { return x; } double k_pow(double x, double y) { return x; }
 double k_boltzmann(void) { return 0.0; } double k_target_temperature(void) { return 0.0; } double k_dt(void) { return 1.0; } int k_same_step(void) { return 0; }
 _Bool nondet_bool(void);
-void h_calc_colvars_head(void) { g_step_abs = nondet_ll(); g_debug = 0; int b = nondet_int(), v0 = nondet_int(); k_calc_colvars_head(b, v0, 1, nondet_bool(), nondet_bool());
-  if (g_nawake == 2 && g_aw_on[0] == 1) __CPROVER_assert(0, "canary: awake step reachable"); if (g_nawake == 2 && g_aw_on[0] == 0) __CPROVER_assert(0, "canary: sleeping step reachable"); }
+void h_calc_colvars_head(void) { g_step_abs = nondet_ll(); g_debug = 0; int b = nondet_int(), v0 = nondet_int(); _Bool ba = nondet_bool(); k_calc_colvars_head(b, v0, 1, nondet_bool(), nondet_bool(), ba, nondet_bool());
+  if (b == 3 && g_aw_on[0] == 1) __CPROVER_assert(0, "canary: awake step reachable"); if (b == 3 && g_aw_on[0] == 0 && !ba) __CPROVER_assert(0, "canary: sleeping step of a bias never woken up reachable"); }
